@@ -148,8 +148,17 @@ def check(ctx):
     mlwa = ctx.fold.get('rgxlib.lots', 'multilot_with_aliquot_regex')
     aunp = ctx.fold.get('rgxlib.aliquots', 'aliquot_unpacker_regex')
     ctx.attempt(_inc, 'RX-LANG', 'multilot_with_aliquot_regex', F.LOT_WITH_ALIQUOT, mlwa, 'lot groups with leading aliquot / acreage')
+    ctx.attempt(_separator_rule, fi, mlwa, aunp)
+    ctx.attempt(_rest_of_check, fi, mlwa, aunp)
+
+
+def _separator_rule(ctx, fi, mlwa, aunp):
     # separator rule
     loops = [n for n in fi.node.body if isinstance(n, ast.While)]
+    if not loops:
+        # the extraction may live in a helper that TractParser.parse calls with the pattern and the separator
+        ctx.undecided('SEP', 'extraction loops of TractParser.parse', 'no while-loop at the top level of parse(): the extraction was moved / rewritten')
+        return
     ctx.floor('extraction loops', len(loops), 2)
     seps = []
     for loop, rv in zip(loops[:2], (mlwa, aunp)):
@@ -187,6 +196,9 @@ def check(ctx):
         ctx.shape(bool(srch) and norm(srch[0].func.value) == rv.name and norm(srch[0].args[0]) == 'remaining_text', 'SEP',
                   f"loop searches remaining_text with {rv.name}")
     ctx.shape(len(set(seps)) == 1, 'SEP', 'both loops use the same separator')
+
+
+def _rest_of_check(ctx, fi, mlwa, aunp):
     t = ' '.join(norm(s) for s in walk_local(fi.node) if isinstance(s, ast.stmt))
     ctx.shape("leading_aliquot = lot_aliq_mo['aliquot']" in t and "lot_text = lot_aliq_mo['lots']" in t, 'DEFUSE',
               "lot blocks come from the 'lots' group, the division from the 'aliquot' group")
